@@ -51,6 +51,11 @@ def gen_cases(tier):
                         strings = strings[:1]
                     for s in strings:
                         cases.append({"kind": "list", "args": list(perm), "input": s})
+    # a negative entry whose minus sign is separated from the digits by blanks or a tab (still a negative distance)
+    for neg in ("- 2", "-\t0.7", "-  0.0001", "+ -1", "- 1e-3"):
+        cases.append({"kind": "negative", "args": ["-1", "3"], "input": f"[1, {neg}, 3]"})
+        cases.append({"kind": "negative", "args": ["-1", "3"], "input": f"({neg}, 0.5)"})
+        cases.append({"kind": "negative", "args": ["-1", "3"], "input": neg})
     # lists with a REPEATED entry (the value clause covers them: the repeated distance stays; increments and boundaries
     # are only stated for distinct radii)
     for a, b in itertools.permutations(DEC[:6] if tier == "quick" else DEC, 2):
